@@ -93,13 +93,18 @@ pub fn eval_fn(
                 symbol_decl.name),
             symbol_decl.span);
 
+        // Paths inside the function body are relative to the file
+        // that contains the function, as for rule productions
+        let mut fn_ctx = (*ctx).clone();
+        fn_ctx.file_handle_ctx = Some(function.body.span().file_handle);
+
         let maybe_result = asm::resolver::eval(
             query.report,
             opts,
             fileserver,
             decls,
             defs,
-            ctx,
+            &fn_ctx,
             &mut args_ctx,
             &function.body);
 
